@@ -49,13 +49,36 @@ def strip(e):
     return e
 
 
-def is_self_field(e, name):
+_FLOW = {"cur": None}  # binding table of the body under analysis: pure `let x = <place>;` aliases are looked through
+
+
+def _resolve(e):
     e = strip(e)
+    flow = _FLOW["cur"]
+    hops = 0
+    while flow is not None and isinstance(e, dict) and e.get("k") == "path" and e["res"].get("k") == "local" and hops < 6:
+        b = flow.bind.get(e["res"]["h"])
+        if b is None:
+            break
+        b = strip(b)
+        if b.get("k") in ("path", "field"):
+            e = b
+            hops += 1
+        else:
+            break
+    return e
+
+
+def is_self_field(e, name):
+    e = _resolve(e)
     return e.get("k") == "field" and e["n"] == name and strip(e["e"]).get("k") == "path" and strip(e["e"])["res"].get("n") == "self"
 
 
 def is_local(e, name):
-    e = strip(e)
+    e0 = strip(e)
+    if e0.get("k") == "path" and e0["res"].get("k") == "local" and e0["res"].get("n") == name:
+        return True
+    e = _resolve(e)
     return e.get("k") == "path" and e["res"].get("k") == "local" and e["res"].get("n") == name
 
 
@@ -110,6 +133,7 @@ def struct_lit_fields(e):
 
 # ------------------------------------------------------------------------------------------------ SER-1
 def check_derived(F, rep):
+    _FLOW["cur"] = None
     n = 0
     n_hue = 0
     ser_fields = {}
@@ -194,6 +218,7 @@ def check_serializer(F, rep):
         tr = (b["_impl"].get("trait") or "").split("::")[-1]
         m = b["name"]
         key = "%s::%s" % (tr, m)
+        _FLOW["cur"] = Flow(F, b, ["self"])
         ic = inner_calls(b)
         ps = param_names(b)
         if tr == "Serializer":
@@ -279,10 +304,12 @@ def check_deserializer(F, rep):
     n = 0
     for m, (inner, lenp, fc) in spec.items():
         b = by.get(("AlphaDeserializer", m))
+        _FLOW["cur"] = Flow(F, b, ["self"]) if b is not None else None
         if b is None:
             rep.fail("ANCHOR", "AlphaDeserializer::" + m, "method not found")
             continue
         n += 1
+        _FLOW["cur"] = Flow(F, b, ["self"])
         ic = inner_calls(b)
         ps = param_names(b)
         ok = len(ic) == 1 and ic[0][0] == inner
@@ -316,6 +343,7 @@ def check_deserializer(F, rep):
     # ---- sequence visitors: colour first, then `*self.alpha = seq.next_element()?`
     for st in ("AlphaSeqVisitor", "AlphaMapVisitor"):
         b = by.get((st, "visit_seq"))
+        _FLOW["cur"] = Flow(F, b, ["self"]) if b is not None else None
         if b is None:
             rep.fail("ANCHOR", st + "::visit_seq", "method not found")
             continue
@@ -345,6 +373,7 @@ def check_deserializer(F, rep):
                if ok else "the alpha slot must be assigned the Option returned by seq.next_element()? after the colour (order %s, direct=%s)" % (order, assign_ok), F.loc(b))
     # ---- map path
     b = by.get(("AlphaMapVisitor", "visit_map"))
+    _FLOW["cur"] = Flow(F, b, ["self"]) if b is not None else None
     if b is not None:
         ic = inner_calls(b)
         f = struct_lit_fields(ic[0][1]["a"][0]) if len(ic) == 1 and ic[0][1].get("a") else None
@@ -353,6 +382,7 @@ def check_deserializer(F, rep):
     else:
         rep.fail("ANCHOR", "AlphaMapVisitor::visit_map", "method not found")
     b = by.get(("MapWrapper", "next_key_seed"))
+    _FLOW["cur"] = Flow(F, b, ["self"]) if b is not None else None
     if b is not None:
         names = [c for c, _n in calls(b["body"])]
         ls = lits(b["body"], ("str",))
@@ -363,12 +393,14 @@ def check_deserializer(F, rep):
     else:
         rep.fail("ANCHOR", "MapWrapper::next_key_seed", "method not found")
     b = by.get(("MapWrapper", "next_value_seed"))
+    _FLOW["cur"] = Flow(F, b, ["self"]) if b is not None else None
     if b is not None:
         ic = inner_calls(b)
         rep.ob("SER-2", "MapWrapper::next_value_seed", len(ic) == 1 and ic[0][0] == "next_value_seed", "forwarded", F.loc(b))
     # ---- the field visitor: exactly the key "alpha"
     for m, kinds in (("visit_str", ("str",)), ("visit_bytes", ("bstr", "bytestr", "bytes", "str"))):
         b = by.get(("AlphaFieldVisitor", m))
+        _FLOW["cur"] = Flow(F, b, ["self"]) if b is not None else None
         if b is None:
             rep.fail("ANCHOR", "AlphaFieldVisitor::" + m, "method not found")
             continue
@@ -386,6 +418,7 @@ def check_deserializer(F, rep):
         else:
             rep.ob("SER-2", "AlphaFieldVisitor::" + m, True, "key compared with %s only" % norm, F.loc(b))
     b = by.get(("AlphaFieldVisitor", "visit_u64"))
+    _FLOW["cur"] = Flow(F, b, ["self"]) if b is not None else None
     if b is not None:
         good = False
         for nd, _p in facts.walk(b["body"]):
@@ -402,6 +435,7 @@ def check_deserializer(F, rep):
     else:
         rep.fail("ANCHOR", "AlphaFieldVisitor::visit_u64", "method not found")
     b = by.get(("AlphaMapVisitor", "visit_newtype_struct"))
+    _FLOW["cur"] = Flow(F, b, ["self"]) if b is not None else None
     if b is not None:
         stores = [nd for nd, _p in facts.walk(b["body"]) if nd.get("k") == "assign" and is_self_field(nd["a"][0], "alpha")]
         ic = inner_calls(b)
@@ -443,6 +477,7 @@ def check_entry_points(F, rep):
             continue
         if tr.endswith("::Serialize"):
             b = F.impl_method(im, "serialize")
+            _FLOW["cur"] = Flow(F, b, ["self"]) if b is not None else None
             n += 1
             cs = [nd for c, nd in calls(b["body"]) if c == "serialize"]
             ok = len(cs) == 1 and is_self_field(cs[0].get("r", {}), "color")
@@ -451,6 +486,7 @@ def check_entry_points(F, rep):
             rep.ob("SER-3", "%s::serialize" % adt.split("::")[-1], ok, "self.color.serialize(AlphaSerializer { serializer, &self.alpha }) - flattened, alpha at the same level", F.loc(b))
         elif tr.endswith("::Deserialize<'de>") or tr.endswith("::Deserialize"):
             b = F.impl_method(im, "deserialize")
+            _FLOW["cur"] = Flow(F, b, ["self"]) if b is not None else None
             n += 1
             names = [c for c, _n in calls(b["body"])]
             ls = lits(b["body"], ("str",))
@@ -459,6 +495,7 @@ def check_entry_points(F, rep):
     rep.floor("Alpha/PreAlpha serde impls", n, 4)
     for fn, what in (("serde::deserialize_with_optional_alpha", "Alpha"), ("serde::deserialize_with_optional_pre_alpha", "PreAlpha")):
         b = F.fn(fn)
+        _FLOW["cur"] = Flow(F, b, ["self"]) if b is not None else None
         cs = calls(b["body"])
         u = [nd for c, nd in cs if c == "unwrap_or_else"]
         ok = len(u) == 1 and "missing_field" not in [c for c, _n in cs]
@@ -471,6 +508,7 @@ def check_entry_points(F, rep):
              "serde::serialize_as_uint": "into_uint_ref", "serde::deserialize_as_uint": "from_uint"}
     for fn, want in pairs.items():
         b = F.fn(fn)
+        _FLOW["cur"] = Flow(F, b, ["self"]) if b is not None else None
         casts = [(c, F.cpath(nd)) for c, nd in calls(b["body"]) if (F.cpath(nd) or "").startswith("cast::")]
         ok = len(casts) == 1 and casts[0][0] == want
         rep.ob("SER-3", fn.split("::")[-1], ok, "uses %s (the inverse pair of C04)" % [p for _c, p in casts], F.loc(b))
